@@ -25,6 +25,15 @@ type Conf struct {
 	// which need Q[0] > t, while staying away from the 61-bit primes bgv.NewParameters picks for its internal
 	// auxiliary basis QMul)
 	QAbove bool
+	// Q, P: explicit prime chains (override QBits/NQ/PBits/NP when Q is non-empty)
+	Q, P []uint64
+}
+
+// PrimeBelow returns the skip-th NTT-friendly prime (= 1 mod 2^(logN+2)) below num/den * 2^bits: a prime of exactly
+// `bits` bits placed inside its bit-length range instead of next to a power of two.
+func PrimeBelow(logN, bits int, num, den uint64, skip int) uint64 {
+	around := (uint64(1) << (bits - 8)) / den * num << 8
+	return ref.PrimesNear(around, uint64(1)<<(logN+2), skip+1, true)[skip]
 }
 
 // PlainModulus returns a prime t ≡ 1 mod 2^(logN+1) just below 2^bits (so that the plaintext ring has the
@@ -44,7 +53,9 @@ func PlainModulus(logN, bits int) uint64 {
 // Build constructs the parameters (panics on harness misuse).
 func (cf Conf) Build() bgv.Parameters {
 	lit := bgv.ParametersLiteral{LogN: cf.LogN, PlaintextModulus: cf.T}
-	if cf.QAbove {
+	if len(cf.Q) > 0 {
+		lit.Q, lit.P = cf.Q, cf.P
+	} else if cf.QAbove {
 		all := ref.PrimesNear(uint64(1)<<cf.QBits, uint64(1)<<(cf.LogN+2), cf.NQ+cf.NP, false)
 		lit.Q, lit.P = all[:cf.NQ], all[cf.NQ:]
 	} else if cf.NP > 0 && cf.PBits == cf.QBits {
